@@ -15,6 +15,7 @@ HP = z3.Function("hp", z3.IntSort(), z3.IntSort(), z3.IntSort())
 FACT = z3.Function("factorial", z3.IntSort(), z3.IntSort())
 IPOW = z3.Function("int_pow", z3.IntSort(), z3.IntSort(), z3.IntSort())
 MUL = z3.Function("int_mul", z3.IntSort(), z3.IntSort(), z3.IntSort())
+IDIV = z3.Function("int_floordiv", z3.IntSort(), z3.IntSort(), z3.IntSort())
 
 def build(reg):
     NS = reg.native_specfuns
@@ -27,9 +28,13 @@ def build(reg):
     reg.specfun("inner", [("n", INT), ("k", INT), ("m", INT), ("P", INT)], INT, base="0", rec="inner(n, k, m, P - 1) + choose(pairs(n - 1 - m), P - 1) * hp(m + 1, k - (P - 1))")
     reg.specfun("outer", [("n", INT), ("k", INT), ("M", INT)], INT, base="0", rec="outer(n, k, M - 1) + choose(n - 1, M - 1) * inner(n, k, M - 1, k + 1)")
     n, k, a = z3.Ints("n_ k_ a_")
-    S = lambda x: MUL(x, x - 1) / 2
+    S = lambda x: IDIV(MUL(x, x - 1), 2); b, c = z3.Ints("b_ c_")
     reg.axioms += [
         ("factorial.positive", z3.ForAll([a], z3.Implies(a >= 0, FACT(a) >= 1), patterns=[FACT(a)]), "k! >= 1 (assumed library fact)"),
+        ("int_floordiv.nested", z3.ForAll([a, b, c], z3.Implies(z3.And(b >= 1, c >= 1), IDIV(IDIV(a, b), c) == IDIV(a, MUL(b, c))), patterns=[IDIV(IDIV(a, b), c), IDIV(a, MUL(b, c))]),
+         "(a // b) // c == a // (b * c) for positive b, c (assumed arithmetic identity; lets equivalent spellings of the factorial quotient verify)"),
+        ("int_mul.positive", z3.ForAll([a, b], z3.Implies(z3.And(a >= 1, b >= 1), MUL(a, b) >= 1), patterns=[MUL(a, b)]), "a product of positive integers is positive"),
+        ("int_mul.commutes", z3.ForAll([a, b], MUL(a, b) == MUL(b, a), patterns=[MUL(a, b)]), "x * y == y * x"),
         ("int_mul.zero", z3.ForAll([a], z3.And(MUL(a, 0) == 0, MUL(0, a) == 0), patterns=[MUL(a, 0), MUL(0, a)]), "x * 0 = 0 * x = 0 (the only arithmetic fact about the opaque product that is used)"),
         ("hp.outside_the_range", z3.ForAll([n, k], z3.Implies(z3.Or(k < n - 1, k > S(n)), HP(n, k) == 0), patterns=[HP(n, k)]), "definition (Harary-Palmer): no connected graph with fewer than n-1 or more than C(n,2) edges"),
         ("hp.trees", z3.ForAll([n, k], z3.Implies(z3.And(k == n - 1, k <= S(n)), HP(n, k) == IPOW(n, n - 2)), patterns=[HP(n, k)]), "definition: Cayley's formula")]
